@@ -184,7 +184,60 @@ class Ctx:
         if jto:
             env["JAVA_TOOL_OPTIONS"] = (env.get("JAVA_TOOL_OPTIONS", "") + " " + " ".join(jto)).strip()
         t0 = time.time()
-        p = subprocess.run(cmd, cwd=d, env=env, capture_output=True, text=True)
+        # Opt-in cache (VERIF_TLC_CACHE=<dir>, set only by tools/seedcheck.py): what TLC derives from the
+        # specification does not depend on the library under test, so that a seeded change can be
+        # checked without exploring the same state space again.  Never set by the registered commands.
+        cdir = os.environ.get("VERIF_TLC_CACHE")
+        ckey = None
+        if cdir:
+            hh = hashlib.sha256()
+            for fn in sorted(os.listdir(d)):
+                if fn.endswith(".tla"):
+                    hh.update(fn.encode())
+                    hh.update(open(os.path.join(d, fn), "rb").read())
+            hh.update(open(os.path.join(d, cfgname), "rb").read())
+            hh.update(repr([module, workers, simulate, depth, self.seed if simulate is not None else 0, list(extra), coverage]).encode())
+            ckey = os.path.join(cdir, hh.hexdigest()[:24])
+        before = {}
+        if ckey:
+            for fn in os.listdir(d):
+                fp = os.path.join(d, fn)
+                before[fn] = os.path.getmtime(fp) if os.path.isfile(fp) else -1
+        if ckey and os.path.exists(os.path.join(ckey, "stdout.txt")):
+            out_text = open(os.path.join(ckey, "stdout.txt")).read()
+            rc = int(open(os.path.join(ckey, "rc.txt")).read())
+            for fn in os.listdir(os.path.join(ckey, "files")):
+                src = os.path.join(ckey, "files", fn)
+                dst = os.path.join(d, fn)
+                if os.path.isdir(src):
+                    shutil.copytree(src, dst, dirs_exist_ok=True)
+                else:
+                    shutil.copyfile(src, dst)
+
+            class _P:
+                pass
+            p = _P()
+            p.stdout, p.stderr, p.returncode = out_text, "", rc
+        else:
+            p = subprocess.run(cmd, cwd=d, env=env, capture_output=True, text=True)
+            if ckey and p.returncode != 124:
+                tmpk = ckey + ".tmp%d" % os.getpid()
+                os.makedirs(os.path.join(tmpk, "files"), exist_ok=True)
+                for fn in os.listdir(d):
+                    fp = os.path.join(d, fn)
+                    if fn in ("states",) or fn.endswith(".tla") or fn.endswith(".cfg"):
+                        continue
+                    if os.path.isdir(fp):
+                        if fn not in before or os.listdir(fp):
+                            shutil.copytree(fp, os.path.join(tmpk, "files", fn), dirs_exist_ok=True)
+                    elif fn not in before or os.path.getmtime(fp) != before[fn]:
+                        shutil.copyfile(fp, os.path.join(tmpk, "files", fn))
+                open(os.path.join(tmpk, "stdout.txt"), "w").write(p.stdout + p.stderr)
+                open(os.path.join(tmpk, "rc.txt"), "w").write(str(p.returncode))
+                try:
+                    os.rename(tmpk, ckey)
+                except OSError:
+                    shutil.rmtree(tmpk, ignore_errors=True)
         r = TLCResult()
         r.wall = time.time() - t0
         r.out = p.stdout + p.stderr
